@@ -8,6 +8,11 @@ CASES = [
     ('grow fills with nil', 'a = [1]; a resize 3; a', '[1,nil,nil]'),
     ('shrink keeps the prefix', 'a = [1,2,3]; a resize 1; a', '[1]'),
     ('resize to zero', 'a = [1,2,3]; a resize 0; a', '[]'),
+    ('deleteAt removes exactly that element', 'a = [1,2,3]; a deleteAt 1; a', '[1,3]'),
+    ('deleteAt returns the element', 'a = [1,2,3]; a deleteAt 2', '3'),
+    ('deleteAt behind the end leaves the array unchanged', 'a = [1,2,3]; a deleteAt 3; a', '[1,2,3]'),
+    ('deleteAt with a negative index leaves the array unchanged', 'a = [1,2,3]; a deleteAt -1; a', '[1,2,3]'),
+    ('deleteAt with a huge index leaves the array unchanged', 'a = [1,2,3]; a deleteAt 1e10; a', '[1,2,3]'),
 ]
 def search(sqfvm):
     for (name, code, want) in CASES:
